@@ -56,6 +56,9 @@ func (t *subscribeTransaction) Suback(mqSuback *mqPkts.SubackPacket) error {
 		t.Success()
 	} else {
 		returnCode = snPkts1.RC_NOT_SUPPORTED
+		// The topic ID was registered in advance (see handleSubscribe). The
+		// client does not learn it from a rejected SUBACK, so forget it.
+		t.handler.registeredTopics.Delete(t.topicID)
 		t.Fail(fmt.Errorf("MQTT SUBACK return code: %d", mqSuback.ReturnCodes[0]))
 	}
 	snPkt := snPkts1.NewSuback(t.topicID, returnCode, qos)
